@@ -8,7 +8,7 @@ from ..runner import Part, Violation
 ID = "C09"
 RULE = ("model-based histories over every identified record type (S, P, L/C with ID tag, E, G, O, U): add and "
         "rename to a fresh identifier, to one in use by the same type, to one in use by another type, to '*', to "
-        "integer-looking names; ID tags of links/containments deleted or set to None; interleaved unused_name() calls and removals. After every step: names has no "
+        "integer-looking names; a mentioned E/G/O/U line to '*' (must be refused, state unchanged); ID tags of links/containments deleted or set to None; interleaved unused_name() calls and removals. After every step: names has no "
         "duplicates and equals the model's namespace; the per-kind name lists partition it; line(n) is the line "
         "whose current name is n for every n (segment(n) too for segments); unused strings give None / "
         "NotFoundError; unused_name() is not in names. A collision with a real line must raise NotUniqueError and "
@@ -109,6 +109,27 @@ def prop(case):
                 raise Violation("unused_name-raised", "%s: %s" % (ctx, e))
             if not isinstance(u, str) or u in [str(x) for x in run.gfa.names] or run.gfa.line(u) is not None:
                 raise Violation("unused_name-used", "%s: unused_name() returned %r which is in use" % (ctx, u))
+            continue
+        if kind == "unname_mentioned":
+            # a line which others mention by its identifier cannot lose it: the mentions could not
+            # be written any more.  Refused with a gfapy error, nothing changed.
+            rec = run.model.recs[op[1]]
+            line = run.find_line(rec)
+            if line is None:
+                raise Violation("line-lost", "%s: no line for %r" % (ctx, rec.text()))
+            before, btext = O.observe(run.gfa), str(run.gfa)
+            try:
+                line.name = "*"
+                raised = None
+            except GfapyError as e:
+                raised = e
+            except Exception as e:
+                raise Violation("unname-foreign", "%s: raised %s: %s" % (ctx, type(e).__name__, str(e)[:200]), type(e).__name__)
+            if raised is None:
+                raise Violation("unname-accepted", "%s: %r, mentioned by other lines, was made unnamed:\n%s" % (ctx, rec.text(), str(run.gfa)), rec.rt)
+            if O.observe(run.gfa) != before or str(run.gfa) != btext:
+                raise Violation("collision-changed-state", "%s: the refused call changed the Gfa" % ctx, "unname")
+            check_namespace(run, ctx)
             continue
         if kind in ("collide_add", "collide_rename"):
             before = O.observe(run.gfa)
@@ -300,6 +321,12 @@ def gen_case(r, version):
             if not pool:
                 continue
             ops.append(rename_op(st_, r, i, gen.choice(r, pool)))
+        elif x < 0.63 and version == "gfa2" and any(
+                rec.rt in "EGOU" and M.name_of(rec) is not None and any(m_[0] == M.name_of(rec) for x_ in st_.model.recs for m_ in M.mentions(x_))
+                for rec in st_.model.recs):
+            cands = [j for j, rec in enumerate(st_.model.recs) if rec.rt in "EGOU" and M.name_of(rec) is not None and
+                     any(m_[0] == M.name_of(rec) for x_ in st_.model.recs for m_ in M.mentions(x_))]
+            ops.append(["unname_mentioned", gen.choice(r, cands)])
         elif x < 0.64 and version == "gfa1" and any(rec.rt in "LC" and rec.tag("ID") for rec in st_.model.recs):
             i = gen.choice(r, [j for j, rec in enumerate(st_.model.recs) if rec.rt in "LC" and rec.tag("ID")])
             rec = st_.model.recs[i]
